@@ -152,7 +152,7 @@ def identifier(ctx, rep, prog):
     # order must be numeric < alphanumeric, numerics by value, alphanumerics by bytes — and eq exactly when cmp is Equal
     from ..interp import StrV
     nums = [0, 1, 2, 10]
-    strs = ["a", "A", "B", "alpha", "ALPHA", "rc9", "rc10", "1a", "-"]
+    strs = ["a", "A", "B", "alpha", "ALPHA", "rc9", "rc10", "1a", "-", "9-1", "10-1", "0-", "-1"]
     items = [("n", x) for x in nums] + [("s", x) for x in strs]
 
     def mkc(kind, val):
